@@ -458,7 +458,10 @@ func lexInsideAction(l *lexer) stateFn {
 		if l.next() == '&' {
 			l.emit(itemAnd)
 		} else {
+			// a lone '&' is not an operator; leaving it in the pending input would
+			// glue it to the next token (".x" would become the field "&.x")
 			l.backup()
+			return l.errorf("unexpected character %#U in action (the logical operator is '&&')", r)
 		}
 	case r == '<':
 		if l.next() == '=' {
